@@ -246,7 +246,7 @@ def run(ctx):
         jobs.append((h, ['k'] + seq, sd))
     for j in D.deviation_docs([['**kern', '**text']] if quick else hdrs[:5], 1 if quick else 2, (ctx.seed,), backbone=['k', 'i', 'b', 'd', 'd', 'b', 'd', 'b']):
         jobs.append(j)
-    ctx.pmap(_job, [[j] for j in D.long_docs(ctx.seed, reps=(6,)) + D.huge_docs(ctx.seed + 3, headers=(('**kern', '**text'),))] + list(X.chunks(jobs, 60)), chunksize=1)
+    ctx.pmap(_job, [[j] for j in D.long_docs(ctx.seed, reps=(6,)) + D.huge_docs(ctx.seed + 3, headers=(('**kern', '**text'),)) + D.giant_jobs(ctx.seed) + D.aligned_jobs(ctx.seed) + [(['**kern'], ['DISTINCT'], ctx.seed)]] + list(X.chunks(jobs, 60)), chunksize=1)
 
 
 def replay(case):
